@@ -19,12 +19,24 @@ type recConn struct {
 	writes [][]byte
 	fail   bool
 	failAt map[int]bool // per-write failures (index of the write)
+	mode   map[int]int  // how a failing write reports: 0 = (0, err), 2 = (len, err), 3 = (len/2, err)
+	fmode  int
 }
 
 func (c *recConn) Read([]byte) (int, error) { return 0, io.EOF }
 func (c *recConn) Write(b []byte) (int, error) {
 	c.writes = append(c.writes, append([]byte(nil), b...))
 	if c.fail || c.failAt[len(c.writes)-1] {
+		m := c.fmode
+		if c.mode != nil {
+			m = c.mode[len(c.writes)-1]
+		}
+		switch m {
+		case 2:
+			return len(b), errors.New("write failed")
+		case 3:
+			return len(b) / 2, errors.New("write failed")
+		}
 		return 0, errors.New("write failed")
 	}
 	return len(b), nil
@@ -330,8 +342,9 @@ func genC07(g *G) {
 		var toks []string
 		for i, f := range pool {
 			ok := "1"
-			if g.R.Intn(6) == 0 {
-				ok = "0"
+			if g.R.Intn(5) == 0 {
+				// a failing write: nothing written, everything "written" but an error, or half
+				ok = g.R.Pick("0", "2", "3")
 			}
 			_ = i
 			toks = append(toks, strings.ReplaceAll(frameArgs(f), " ", ",")+","+ok)
@@ -343,6 +356,7 @@ func genC07(g *G) {
 	for _, f := range genFrames(g, true)[:g.N(300, 3000)] {
 		g.Emit("txs %s 1", frameArgs(f))
 		g.Emit("txs %s 0", frameArgs(f))
+		g.Emit("txs %s %s", frameArgs(f), g.R.Pick("2", "3"))
 	}
 }
 
@@ -456,13 +470,14 @@ func init() {
 		return fmt.Sprintf("n=%d err=%s icpt=%s frames=%s", n, e, ic, strings.Join(frames, ";"))
 	})
 	RegExec("txq", func(a []string) string {
-		c := &recConn{failAt: map[int]bool{}}
+		c := &recConn{failAt: map[int]bool{}, mode: map[int]int{}}
 		var frames []can.Frame
 		for i, tok := range strings.Split(a[0], ";") {
 			p := strings.Split(tok, ",")
 			frames = append(frames, frameOfArgs(p))
 			if p[5] != "1" {
 				c.failAt[i] = true
+				c.mode[i] = int(U(p[5]))
 			}
 		}
 		var icpt []can.Frame
@@ -493,7 +508,7 @@ func init() {
 		return fmt.Sprintf("writes=%d bytes=%s icpt=%s n=%d ok=%s", len(c.writes), strings.Join(parts, ";"), ic, len(icpt), strings.Join(oks, ""))
 	})
 	RegExec("txs", func(a []string) string {
-		c := &recConn{fail: a[5] != "1"}
+		c := &recConn{fail: a[5] != "1", fmode: int(U(a[5]))}
 		nic := 0
 		var got can.Frame
 		t := socketcan.NewTransmitter(c, socketcan.TransmitterFrameInterceptor(func(f can.Frame) { nic++; got = f }))
